@@ -234,6 +234,23 @@ def enum_shard(st, shard, nshards, payload):
                 st.sample({'logic': logic, 'f': t}, cls='%s-%s' % (logic, t[0]))
 
 
+def unary_variant(t, which):
+    """t with its which-th (preorder, modulo) non-leaf subformula x wrapped as ('and', x) or ('or', x)."""
+    subs = [x for x in fm.subformulas(t) if x[0] not in fm.LEAF]
+    if not subs:
+        return t
+    target = subs[which % len(subs)]
+    op = 'and' if which % 2 else 'or'
+
+    def rec(x):
+        if x == target:
+            return (op, x)
+        if x[0] in fm.LEAF:
+            return x
+        return (x[0],) + tuple(rec(c) for c in x[1:])
+    return rec(t)
+
+
 def random_shard(st, shard, nshards, payload):
     from hypothesis import strategies as hs
     sc = _scope_key(payload['scope'])
@@ -258,6 +275,19 @@ def random_shard(st, shard, nshards, payload):
         f = check_restricted(inp)
         if f is None and has_not(logic, t):
             f = check_lnot(inp)
+        if f is None and fm.size(t) % 3 == 0:
+            # and / or nodes with ONE operand: not in the documented syntax, but the constructors
+            # build them ('and p'); where they do, the rewriting must still be equivalent.  A library
+            # that refuses them (TypeError) puts them outside the domain: skipped, never an alarm.
+            t1 = unary_variant(t, fm.size(t) // 3)
+            if t1 != t:
+                try:
+                    fm.to_lib(t1, fm.lang(logic))
+                except TypeError:
+                    st.bump('one-operand and/or refused by the constructors (skipped)')
+                    return None
+                st.bump('random: formula with a one-operand and/or node')
+                f = check_restricted(dict(inp, f=t1))
         return f
 
     f = core.hyp_run(payload['seed'] * 1000 + shard, cases, body, payload['n'])
